@@ -241,7 +241,7 @@ Section Base.
     split; [apply N.eqb_neq; apply negb_true_iff; exact H1|].
     destruct (is_skip_name g x); [|exact Hc]. cbn [negb orb] in H2.
     destruct (lookup_rule (g_rules g) x) as [d|]; [|exact Logic.I].
-    apply orb_true_iff in H2. tauto.
+    apply orb_true_iff in H2. destruct H2 as [H2|H2]; [left|right; left]; exact H2.
   Qed.
 
   (* a call through the implicit skip: flag off *)
